@@ -252,9 +252,15 @@ class Engine:
         return 0
 
     def choose(self, n, name="ch"):
-        """symbolic choice in range(n), resolved by forking"""
+        """symbolic choice in range(n), resolved by forking.  A job may pin a labelled choice (Engine.forced) - that is how one job is
+        sharded into several that together cover the same decision tree."""
         if n <= 1:
             return 0
+        f = getattr(self, "forced", None)
+        if f and name in f:
+            if f[name] >= n:
+                raise PathAbort()
+            return f[name]
         v = z3.Int(self.fresh_name(name))
         self.solver.add(v >= 0, v < n)
         self.model = None
